@@ -29,6 +29,14 @@ def battery():
                               relationships=[Relationship(name=t, type=ty, foreign_key=fk) for t, ty, fk in rels[n]],
                               dimensions=[Dimension(name="kind", type="categorical"), Dimension(name="status", type="categorical"), Dimension(name="day", type="time", granularity="day", sql="created")],
                               metrics=mets, segments=[Segment(name="xs", sql="{model}.kind = 'x'")]))
+        # composite keys: a detail table keyed by (order, line) with one foreign key inside its key and one outside it, a composite-keyed parent
+        L.add_model(Model(name="lines", table="lines", primary_key=["order_id", "line_no"],
+                          relationships=[Relationship(name="orders", type="many_to_one", foreign_key="order_id"), Relationship(name="products", type="many_to_one", foreign_key=["vendor_id", "sku"])],
+                          dimensions=[Dimension(name="kind", type="categorical")], metrics=[Metric(name="n", agg="count"), Metric(name="total", agg="sum", sql="amount"), Metric(name="uniq", agg="count_distinct")]))
+        L.add_model(Model(name="products", table="products", primary_key=["vendor_id", "sku"],
+                          relationships=[Relationship(name="shelves", type="one_to_many", foreign_key=["vendor_id", "sku"])],
+                          dimensions=[Dimension(name="kind", type="categorical")], metrics=[Metric(name="n", agg="count"), Metric(name="total", agg="sum", sql="amount")]))
+        L.add_model(Model(name="shelves", table="shelves", primary_key="id", dimensions=[Dimension(name="kind", type="categorical")], metrics=[Metric(name="n", agg="count")]))
         L.add_metric(Metric(name="cross", type="derived", sql="orders.total + customers.total + items.total"))
         L.add_metric(Metric(name="cross2", type="derived", sql="returns.n / orders.n"))
         L.add_metric(Metric(name="cross_ratio", type="ratio", numerator="items.total", denominator="orders.total"))
@@ -49,6 +57,11 @@ def battery():
         dict(metrics=["orders.total"], dimensions=["regions.kind"]),                                         # the diamond, walked from orders
         dict(metrics=["regions.n"], dimensions=["regions.kind"], filters=["orders.status = 'a'"]),          # ... and from regions
         dict(metrics=["items.total"], dimensions=["regions.status", "stores.kind"]),
+        dict(metrics=["lines.total", "lines.uniq"], dimensions=["products.kind"]),                           # composite keys: foreign key outside the detail table's key
+        dict(metrics=["lines.n"], dimensions=["orders.kind", "lines.kind"]),                                 # ... foreign key inside it
+        dict(metrics=["orders.total"], dimensions=["lines.kind"]),                                           # fan-out onto the composite-keyed child
+        dict(metrics=["products.total", "products.n"], dimensions=["shelves.kind"], filters=["lines.kind = 'x'"]),
+        dict(metrics=["lines.uniq"], dimensions=["lines.kind"]),
     ]
     return layer, queries
 
@@ -58,6 +71,8 @@ def main():
     history = "--history" in sys.argv
     layer, queries = battery()
     L = layer()
+    snapshot = lambda: json.dumps({n: m.model_dump(mode="json") for n, m in L.graph.models.items()}, sort_keys=True, default=str) + json.dumps({n: m.model_dump(mode="json") for n, m in L.graph.metrics.items()}, sort_keys=True, default=str)
+    fresh = snapshot()              # the registered definitions before ANY compile / explain call
     out = []
     if history:
         # every query is compiled after all the others have been compiled / explained on the same layer, in a scrambled order
@@ -71,14 +86,21 @@ def main():
             L.explain(**{k: v for k, v in queries[1].items() if k in ("metrics", "dimensions", "filters")})
         except Exception:
             pass
-    before = json.dumps({n: m.model_dump(mode="json") for n, m in L.graph.models.items()}, sort_keys=True, default=str) + json.dumps({n: m.model_dump(mode="json") for n, m in L.graph.metrics.items()}, sort_keys=True, default=str)
     for i, q in enumerate(queries):
         try:
             sql = L.compile(**q) if history else layer().compile(**q)
         except Exception as e:
             sql = "ERROR %s: %s" % (type(e).__name__, e)
         out.append(sql)
-    after = json.dumps({n: m.model_dump(mode="json") for n, m in L.graph.models.items()}, sort_keys=True, default=str) + json.dumps({n: m.model_dump(mode="json") for n, m in L.graph.metrics.items()}, sort_keys=True, default=str)
+    if not history:
+        # the shared layer has not been used yet: compile (and explain) everything on it once, for the purity check
+        for q in queries:
+            try:
+                L.compile(**q)
+                L.explain(**{k: v for k, v in q.items() if k in ("metrics", "dimensions", "filters")})
+            except Exception:
+                pass
+    before, after = fresh, snapshot()
     for i, sql in enumerate(out):
         print("%d\t%s" % (i, hashlib.sha1(sql.encode()).hexdigest()))
         if dump:
